@@ -43,7 +43,7 @@ VB = ((0., 0.), (1., 0.), (0.375, 2.5), (0., 1.))                               
 VEC = {'A': VA, 'B': VB}
 QUICK_V = {'A': (0, 2, 4), 'B': (0, 2)}
 SINGLE_PHASES = ('s', 'l', 'g', 'S', 'L')
-MULTI_SETS = (('g', 'l'), ('l', 's'), ('L', 'l'))
+MULTI_SETS = (('g', 'l'), ('l', 's'), ('L', 'l'), ('S', 's'))      # (L,l) / (S,s): twin labels that fold into one row of a receiver with only one of them
 
 _T = {}
 def th(pkg): return fixtures.thermo(pkg)
@@ -168,6 +168,7 @@ def menu(level):
                     if vi: out.append(('M', pkg, ps, fill, vi))
     return out
 
+EB_PHASES = 'lgLsS'      # mix_from's default energy_balance=True: the one-non-empty-inlet path goes through copy_like
 RECEIVERS = {
     'single-l': ('S', 'A', 'l', 4), 'single-g': ('S', 'A', 'g', 4),
     'multi-gl': ('M', 'A', ('g', 'l'), 'both', 4), 'multi-Lls': ('M', 'A', ('L', 'l'), 'both', 4),
@@ -182,6 +183,8 @@ def make_receiver(kind):
             for i, x in enumerate(v):
                 if x: r.dct[i] = x
         return s
+    if kind == 'multi-ls':          # only used with energy_balance=True: has 'l' but not 'L', 's' but not 'S'
+        return make(('M', 'A', ('l', 's'), 'both', 4))
     return make(RECEIVERS[kind])
 
 
@@ -201,8 +204,8 @@ class Mix(System):
             for selfk in (0, 1, 2):
                 cfgs.append((recv, False, selfk, None))
                 for t1 in m: cfgs.append((recv, False, selfk, t1))
-        eb = [t for t in m if all(p in 'lg' for p in (t[2] if t[0] != 'M' else ''.join(t[2])))]
-        for recv in ('single-l', 'single-g', 'multi-gl'):
+        eb = [t for t in m if all(p in EB_PHASES for p in (t[2] if t[0] != 'M' else ''.join(t[2])))]
+        for recv in ('single-l', 'single-g', 'multi-gl', 'multi-ls'):
             for selfk in (0, 1, 2):
                 cfgs.append((recv, True, selfk, None))
                 for t1 in eb: cfgs.append((recv, True, selfk, t1))
@@ -226,7 +229,7 @@ class Mix(System):
         m2 = menu('quick' if tier == 'quick' else 'full')
         m3 = menu('mini' if tier == 'quick' else 'mid')
         if eb:
-            ok = lambda t: all(p in 'lg' for p in (t[2] if t[0] != 'M' else ''.join(t[2])))
+            ok = lambda t: all(p in EB_PHASES for p in (t[2] if t[0] != 'M' else ''.join(t[2])))
             m2 = [t for t in m2 if ok(t)]; m3 = [t for t in m3 if ok(t)]
         acts = [()]
         acts += [(t2,) for t2 in m2]
@@ -259,6 +262,9 @@ class Mix(System):
             st.r.mix_from(lst, energy_balance=eb)
         except Exception as e:
             en = type(e).__name__
+            if eb and where(e).split(':')[0] in ('mixture.py', 'free_energy.py', 'ideal_mixture_model.py', '_thermal_condition.py') \
+               or eb and en in ('DomainError', 'InfeasibleRegion'):
+                raise Rejected('mix:energy-solve', cut=False)       # the temperature solve failed (C02's side); nothing is claimed
             raise Violation('unexpected-exception', f'{recv}.mix_from([{', '.join(shown)}], energy_balance={eb}) raised {en}: {e}',
                             match=dict(match, exc=en, where=where(e)), detail=dict(inlets=classes, self_inlet=selfk))
         got = totals(st.r)
